@@ -3,3 +3,4 @@ pub mod explore;
 pub mod json;
 pub mod report;
 pub mod wide;
+pub mod wire;
